@@ -2,6 +2,7 @@
 
 use edp_client::flags::DistributionFlags;
 use edp_client::state_machine::{ConnectionState, HandshakeStateMachine};
+use rayon::prelude::*;
 use serde_json::json;
 use std::collections::{HashSet, VecDeque};
 use std::panic::{AssertUnwindSafe, catch_unwind};
@@ -357,6 +358,28 @@ fn sweeps(rep: &Report) {
                 }
             }
         }
+    }
+    // every status body of at most two bytes (numeric codes, control characters, non-UTF-8 included): only "ok" is a success
+    {
+        let mut bodies: Vec<Vec<u8>> = vec![vec![]];
+        for a in 0..=255u8 { bodies.push(vec![a]); for b in 0..=255u8 { bodies.push(vec![a, b]); } }
+        rep.add("evaluations", bodies.len() as i64);
+        let bad: Vec<(Vec<u8>, &'static str)> = bodies.par_iter().filter_map(|body| {
+            let mut st = vec![b's']; st.extend_from_slice(body);
+            let r = catch_unwind(AssertUnwindSafe(|| {
+                let mut m = HandshakeStateMachine::new("a@b".into(), "p@h".into(), "c".into(), DistributionFlags::default(), 1u32);
+                let _ = m.begin_connect();
+                let _ = m.prepare_send_name();
+                m.handle_status(&st[..]).is_ok()
+            }));
+            match r {
+                Ok(ok) if ok == (body.as_slice() == b"ok") => None,
+                Ok(true) => Some((body.clone(), "unknown status word accepted")),
+                Ok(false) => Some((body.clone(), "status handling wrong")),
+                Err(_) => Some((body.clone(), "unknown status word makes the handshake code panic")),
+            }
+        }).collect();
+        for (body, what) in bad.into_iter().take(8) { rep.violation(what, json!({"status_body_bytes": hex(&body), "family": "all bodies of at most two bytes"})); }
     }
     let ack = hs_ack(&[7u8; 16]);
     for cut in 0..ack.len() {
